@@ -3,7 +3,8 @@ import Pyvsc.Model.Bv
 # Expression and constraint-statement models and their lowering to bit-vector terms
 
 Mirrors `src/vsc/model/expr_*_model.py` (`width`, `is_signed`, `build`) and
-`constraint_*_model.py` (`build`), after the `fix:` commit f4f0903 (`ExprUnaryModel.is_signed`).
+`constraint_*_model.py` (`build`), after the `fix:` commits f4f0903 (`ExprUnaryModel.is_signed`) and ac24245 (soft constraints go
+through `toBool`).
 
 Conventions: Python's default context width `-1` is `0` here (all widths are `≥ 1`, and the
 code only ever takes `max` with it); a field is a number `i` with type `Γ i`; its current
@@ -172,7 +173,7 @@ mutual
     built node) give `none` as well; see `WFStmt`. -/
 def lowerStmt (soft : Bool) : Stmt → Option Bv
   | .expr e => some (toBool (lower Γ ρ e 0))
-  | .soft e => if soft then some (lower Γ ρ e 0) else none
+  | .soft e => if soft then some (toBool (lower Γ ρ e 0)) else none
   | .unique es => some (lowerUnique Γ ρ es)
   | .nil => some (.const 1 1)
   | .cons s rest => some ((lowerScope soft (scopeStep none (lowerStmt soft s)) rest).getD (.const 1 1))
